@@ -54,7 +54,7 @@ def one_kernel(ctx, rng, ci):
     g = gen.Gen(rng, cfg)
     nmax = ctx.pick(3, 4)
     n = int(rng.integers(1, nmax + 1))
-    final = bool(rng.random() < 0.6)
+    final = bool(ci % 2 == 0)  # alternate so that both combinators are exercised by every shard
     f = g.static(depth, nparams=1, ret="carry", names=["c"])
     node = (ast.MaskedIterateFinal if final else ast.MaskedIterate)(f, n)
     case = engine.Case(node, f"C16/s{ctx.seed}/sh{ctx.shard}/{ci}")
